@@ -42,8 +42,8 @@ ASSUMPTIONS = [
     "repeats the churn family (evidence: overflow_scenarios_with_small_queue)","data races, deadlock and lock-order inversions are OBSERVED (ThreadSanitizer on the schedules the "
                "sandbox and the par/seq modes produce), not proved; the Lean theorems cover the logic for every "
                "interleaving of the modelled atomic steps",
-               "inotify delivers an event after the last change of every file and never overflows its queue "
-               "(hypothesis `Faithful` of C14.files_present_partial; < 16384 events pending)",
+               "inotify delivers an event after the last change of every file, or reports IN_Q_OVERFLOW when it dropped some (hypothesis `Faithful` of "
+               "C14.files_present_partial; after an overflow the re-scan re-establishes it: C14.overflow_resync_restores_faithfulness)",
                "files appear through write(2) or rename(2) (docs/drop_in_configs.md: 'modified-in or moved-into'); "
                "hard links (IN_CREATE only) and moving the whole directory away are outside the property text and "
                "not generated",
